@@ -37,7 +37,7 @@ def _prod(d):
 
 
 # ----------------------------------------------------------------------------- sources
-def build_dlis(rng):
+def build_dlis(rng, origin_kw=None):
     nlf = rng.choice([1, 1, 2])
     recs, payloads, passes = [], [], []
     for lf in range(nlf):
@@ -66,7 +66,7 @@ def build_dlis(rng):
                               [((1, 0, b'RIG'), [[b'Rig name'], [b'RIG #%d' % rng.randrange(10 ** 6)]]), ((1, 0, b'BS'), [[b'Bit size'], [b'%d' % rng.randrange(100)]])])
         recs += [dict(kind='E', type=0, enc=False), dict(kind='E', type=1, enc=False), dict(kind='E', type=5, enc=False), dict(kind='E', type=3, enc=False),
                  dict(kind='E', type=4, enc=False)]
-        payloads += [GL.file_header(seq=lf + 1), GL.origin_full(), ptab,
+        payloads += [GL.file_header(seq=lf + 1), GL.origin_full(**(origin_kw or {})), ptab,
                      GL.channel_eflr(rng.sample(chans_all, len(chans_all)) if rng.random() < 0.6 else chans_all),
                      GL.frame_eflr([dict(name=ty['name'], channels=ty['channels']) for ty in types])]
         counters = [0] * ntypes
@@ -364,6 +364,7 @@ def split_replay(ctx, LT, Slice):
         seq = row['file']
         n += 1
         nfr = {}
+        paired = set()
         lrs = [GLL.file_head()]
         for pos, k in enumerate(seq, 1):
             if k == 'CONS':
@@ -372,12 +373,28 @@ def split_replay(ctx, LT, Slice):
             elif k == 'OTHER':
                 lrs.append(rng.choice([bytes([34, 0]) + b'IA\x04\x00TYPE    ' + rng.choice([b'TOOL', b'OUTP']) + b'\x00A\x04\x00MNEM    BS  ',
                                        GLL.misc(232, b'operator text'), GLL.file_tail(), GLL.file_head()]))
+            elif pos in paired:
+                continue                          # rendered together with the pass before it
             else:
-                up = rng.random() < 0.5
-                lrs.append(GLL.dfsr({4: (1, 66, 1 if up else 255), 12: (4, 68, -999.25)}, chans))
-                if k == 'P1':
-                    nfr[pos] = rng.randint(1, 4)
-                    lrs.append(GLL.data_record(0, b'', [RC.enc68(1000.0 * pos + (-j if up else j)) + RC.enc68(float(pos)) for j in range(nfr[pos])]))
+                # two passes in a row are, now and then, two SIMULTANEOUS recordings (LIS-79: a type 0 and a type 1 format
+                # specification, then their data records interleaved) - the same index entries, another file
+                simultaneous = pos < len(seq) and seq[pos] in ('P0', 'P1') and rng.random() < 0.5
+                group = [(pos, k, 0)] + ([(pos + 1, seq[pos], 1)] if simultaneous else [])
+                recs_of = {}
+                for pos_, k_, ty in group:
+                    up = rng.random() < 0.5
+                    lrs.append(GLL.dfsr({4: (1, 66, 1 if up else 255), 12: (4, 68, -999.25)}, chans, iflr_type=ty))
+                    if k_ == 'P1':
+                        nfr[pos_] = rng.randint(1, 4)
+                        fr = [RC.enc68(1000.0 * pos_ + (-j if up else j)) + RC.enc68(float(pos_)) for j in range(nfr[pos_])]
+                        recs_of[ty] = [[f_] for f_ in fr] if simultaneous else [fr]
+                if simultaneous:
+                    paired.add(pos + 1)
+                order = [ty for ty in recs_of for _ in recs_of[ty]]
+                if simultaneous:
+                    rng.shuffle(order)
+                for ty in order:
+                    lrs.append(GLL.data_record(ty, b'', recs_of[ty].pop(0)))
         if rng.random() < 0.7:
             lrs.append(GLL.file_tail())
         maxpay = rng.choice([60, 1020])
